@@ -290,35 +290,49 @@ impl<'a, SE: brush_core::ShellExtensions> Highlighter<'a, SE> {
     }
 
     fn append_span(&mut self, kind: HighlightKind, range: std::ops::Range<usize>) {
-        debug_assert!(
-            self.input_line.is_char_boundary(range.start),
-            "span start {} is not a UTF-8 char boundary in {:?}",
-            range.start,
-            self.input_line,
-        );
-        debug_assert!(
-            self.input_line.is_char_boundary(range.end),
-            "span end {} is not a UTF-8 char boundary in {:?}",
-            range.end,
-            self.input_line,
-        );
+        // N.B. The positions we're handed are derived from token and word-piece offsets that
+        // don't always map exactly onto the input line (e.g., here-documents are reported out
+        // of order, escapes shift offsets). Whatever we're given, keep the spans ordered,
+        // contiguous, non-overlapping and aligned to character boundaries: never start before
+        // what has already been covered, and never split a character.
+        let start = self
+            .floor_char_boundary(range.start)
+            .max(self.current_byte_index);
+        let end = self.ceil_char_boundary(range.end).max(start);
 
         // See if we need to cover a gap between this substring and the one that preceded it.
-        if range.start > self.current_byte_index {
+        if start > self.current_byte_index {
             let missing_kind = self.next_missing_kind.unwrap_or(HighlightKind::Comment);
             self.spans.push(HighlightSpan::new(
-                self.current_byte_index..range.start,
+                self.current_byte_index..start,
                 missing_kind,
             ));
-            self.current_byte_index = range.start;
         }
 
-        let end = range.end;
-        if !range.is_empty() {
-            self.spans.push(HighlightSpan::new(range, kind));
+        if end > start {
+            self.spans.push(HighlightSpan::new(start..end, kind));
         }
 
         self.current_byte_index = end;
+    }
+
+    /// Returns the largest character boundary of the input line that is not after `index`.
+    fn floor_char_boundary(&self, index: usize) -> usize {
+        let mut index = index.min(self.input_line.len());
+        while !self.input_line.is_char_boundary(index) {
+            index = index.saturating_sub(1);
+        }
+        index
+    }
+
+    /// Returns the smallest character boundary of the input line that is not before `index`
+    /// (or the end of the line).
+    fn ceil_char_boundary(&self, index: usize) -> usize {
+        let mut index = index.min(self.input_line.len());
+        while !self.input_line.is_char_boundary(index) {
+            index = index.saturating_add(1);
+        }
+        index
     }
 
     fn skip_ahead(&mut self, dest: usize) {
